@@ -101,7 +101,16 @@ impl Model for TwinModel {
             // the vault was short: the cw20 run had to draw on the insurance fund to pay the trader out
             let (ifa, enga) = (ctx.cw.ifund.to_string(), ctx.cw.engine.to_string());
             let vault_short = so_c.xfers.iter().any(|x| x.from == ifa && x.to == enga);
-            let (cls, refine) = if so_c.outcome.ok && kind == "open" && reversal && cls == "sent-funds" {
+            // the listed reversal finding: the closed leg has equity to hand back (the native path discards that refund and
+            // then demands the whole new margin), and the native refusal is "insufficient", not "excessive"
+            let refund_due = match (a, &p0) {
+                (Act::Open { t, v, .. }, Some(p)) => {
+                    let o = so_c.pre_t(*v, t).out_spot;
+                    o >= 0 && p.margin.u128() as i128 + pnl_of(p, o) > 0
+                }
+                _ => false,
+            };
+            let (cls, refine) = if so_c.outcome.ok && kind == "open" && reversal && cls == "sent-funds" && refund_due && o_n.err.contains("insufficient") {
                 ("sent-funds".to_string(), "reversal-native-demands-more-than-cw20-pulls")
             } else if so_c.outcome.ok && kind == "close" && fees && vault_short && cls == "transfer-failure" {
                 ("transfer-failure".to_string(), "fees-taken-from-short-vault")
